@@ -21,6 +21,7 @@ Bad(e) ==
     [] e.ev = "Seeded"   -> { c \in {"ReproducibleUnderSeed"} : ~e.same } \cup { c \in {"SeedMatters"} : ~e.differs_other_seed }
     [] e.ev = "Returned" -> { c \in {"ResultBelongsToCaller"} : ~e.same }
     [] e.ev = "Stale"    -> { c \in {"AnswersForCurrentContents"} : ~e.same }
+    [] e.ev = "Related"  -> { c \in {"AnswerDependsOnArgumentsOnly"} : ~e.same }
     [] e.ev = "Layout"   -> { c \in {"MemoryLayoutIndependent"} : ~e.same }
     [] e.ev = "Style"    -> { c \in {"ImportStyleIndependent"} : e.digest_package # e.digest_flat }
     [] OTHER -> {"UnknownEvent"}
